@@ -24,8 +24,7 @@
 //
 // Scope: no key of the bucket has collision information (C13 covers colliding keys at the index
 // level); no concurrent writes; file operations do not fail for environmental reasons
-// (reliable_io); data files never exceed the configured DataFileMax and are written in 256-byte
-// blocks (assumed in the contract of GetStreamReader).
+// (reliable_io).
 
 package store
 
@@ -67,7 +66,7 @@ func noCollisionAtAll(bkt *Bucket) bool {
 //@ func (ds *dataStore) GetStreamReader
 //@   props C03 C18
 //@   ints math
-//@   assumed opens the chunk's data file for a sequential scan (newDataStreamReader: os.Open + bufio); data files are smaller than 4 GiB - 512 (offsets are uint32), never exceed DataFileMax (rotation rule) and are written in 256-byte blocks
+//@   assumed opens the chunk's data file for a sequential scan (newDataStreamReader: os.Open + bufio); data files are smaller than 4 GiB - 512 (offsets are uint32)
 //@   requires 0 <= chunk && chunk < MAX_NUM_CHUNK
 //@   modifies ghostHandles(), ghostFail()
 //@   ensures result1 != nil ==> result0 == nil && ioFailed()
@@ -75,7 +74,6 @@ func noCollisionAtAll(bkt *Bucket) bool {
 //@   ensures result0 != nil ==> fresh(result0) && result0.fd != nil && result0.rbuf != nil && fresh(result0.fd) && fresh(result0.rbuf) && result0.offset == 0 && streamSync(result0)
 //@   ensures result0 != nil ==> len(result0.maxBodyBuf) == 0 && int64(cap(result0.maxBodyBuf)) >= config.MCConf.BodyMax && fresh(result0.maxBodyBuf) && fileSize(result0.fd) <= 1<<32-512
 //@   ensures result0 != nil ==> ghostStreamChunk(result0) == &ds.chunks[chunk]
-//@   ensures result0 != nil ==> int64(fileSize(result0.fd)) <= Conf.DataFileMax && fileSize(result0.fd)%256 == 0
 
 // no collision information for the key: nothing is reported
 //@ func (h *hintMgr) getCollisionGC
@@ -251,7 +249,7 @@ func gcReaderOK(bkt *Bucket, r *DataStreamReader, src int) bool {
 //@   loop 2 invariant forallU64(func(kh uint64) bool { return ghostTreeHas[bkt.htree][kh] == old(ghostTreeHas[bkt.htree][kh]) && ghostTreeVer[bkt.htree][kh] == old(ghostTreeVer[bkt.htree][kh]) && ghostTreeVhash[bkt.htree][kh] == old(ghostTreeVhash[bkt.htree][kh]) })
 //@   loop 3 invariant !ioFailed() && gcBktOK(bkt) && gc.Begin == startChunkID && gc.End == endChunkID && startChunkID <= gc.Src && gc.Src <= endChunkID
 //@   loop 3 invariant 0 <= gc.Dst && gc.Dst <= gc.Src && dstchunk == &bkt.datas.chunks[gc.Dst] && dstchunk.gcWriter != nil && newPos.ChunkID == gc.Dst && oldPos.ChunkID == gc.Src
-//@   loop 3 invariant gcReaderOK(bkt, r, gc.Src) && int64(fileSize(r.fd)) <= Conf.DataFileMax && fileSize(r.fd)%256 == 0 && int(r.offset) <= fileSize(r.fd)
+//@   loop 3 invariant gcReaderOK(bkt, r, gc.Src)
 //@   loop 3 invariant gc.Dst == gc.Src ==> dstchunk.rewriting && dstchunk.writingHead <= r.offset      // IN PLACE: the write head never passes the read position
 //@   loop 3 invariant dstchunk.rewriting && gc.Dst != gc.Src && dstchunk.writingHead < dstchunk.size ==> ghostScanEnd[dstchunk]
 //@   loop 3 invariant chunksIdleExcept(bkt.datas, gc.Dst)
